@@ -37,8 +37,11 @@ def _asort(s):
     return _sorts[k]
 
 
-def _uf(name, dom, rng):
-    key = (name, tuple(str(d) for d in dom), str(rng))
+def _uf(name, dom, rng, decl=None):
+    """one uninterpreted function per ORIGINAL operator (name, kind, parameters) and abstract signature: two different
+    operators must never share a symbol (the induced model interprets each symbol as the operator it stands for)"""
+    ident = (decl.kind(), str(decl.params())) if decl is not None else ()
+    key = (name, ident, tuple(str(d) for d in dom), str(rng))
     if key not in _ufs:
         _ufs[key] = z3.Function('abs!%s!%d' % (name, len(_ufs)), *(list(dom) + [rng]))
     return _ufs[key]
@@ -97,12 +100,12 @@ def absterm(t, facts):
                 # a sequence constant (uninterpreted, or the empty sequence)
                 r = z3.Const('abs!%s' % d.name(), _asort(t.sort()))
             elif d.kind() == z3.Z3_OP_SEQ_CONCAT and len(ch) > 2:
-                f = _uf(d.name(), [ch[0].sort(), ch[0].sort()], ch[0].sort())
+                f = _uf(d.name(), [ch[0].sort(), ch[0].sort()], ch[0].sort(), d)
                 r = ch[-1]
                 for c in reversed(ch[:-1]):
                     r = f(c, r)
             else:
-                r = _uf(d.name(), [c.sort() for c in ch], _asort(t.sort()))(*ch)
+                r = _uf(d.name(), [c.sort() for c in ch], _asort(t.sort()), d)(*ch)
     else:
         # quantified formulas / bound variables are kept as they are: their sequence symbols are then simply unrelated to
         # the abstract ones (fewer constraints: still an over-approximation)
